@@ -18,7 +18,7 @@ from analysis import units
 from rules import dir_shared as ds, storage_shared as ss, c18
 
 EXPLANATION = __doc__
-FLOOR = 33
+FLOOR = 35
 
 
 def run(ctx):
@@ -41,6 +41,22 @@ def run(ctx):
     ctx.ob('C01.F.leaf_epoch', 'RF-FLOW', ok, nv.path, '%s:%s' % (nv.file, nv.line),
            'leaf values are mixed with the leaf\'s last_epoch when hashing with leaf epochs' if ok else
            'node_to_azks_value no longer hashes leaves with their last_epoch')
+    # the absent child of the commitment: value TC::empty_node_hash(), label TC::empty_label() (spec: akd_core/src/lib.rs);
+    # the verifier's parent-hash fold receives exactly these from the proofs, so another constant here changes every
+    # root of a tree with a one-child node while all proofs keep verifying (seeded change C01-r2-b)
+    alts = e[1] if e[0] == 'phi' else (e,)
+    none_alt = [a for a in alts if not has_leaf(a, 'input')]
+    ok = len(none_alt) == 1 and none_alt[0][0] == 'call' and call_is(none_alt[0], 'empty_node_hash') and not none_alt[0][3]
+    ctx.ob('C01.F.absent_child_value', 'RF-FLOW', ok, nv.path, '%s:%s' % (nv.file, nv.line),
+           'an absent child contributes TC::empty_node_hash()' if ok else
+           'an absent child no longer contributes TC::empty_node_hash(): %s' % [show(a)[:80] for a in none_alt])
+    nl = prog.one('akd::tree_node::node_to_label')
+    el = result_expr(nl)
+    alts = el[1] if el[0] == 'phi' else (el,)
+    none_alt = [a for a in alts if not has_leaf(a, 'input')]
+    ok = len(none_alt) == 1 and none_alt[0][0] == 'call' and call_is(none_alt[0], 'empty_label') and not none_alt[0][3]
+    ctx.ob('C01.F.absent_child_label', 'RF-FLOW', ok, nl.path, '%s:%s' % (nl.file, nl.line),
+           'an absent child is labelled TC::empty_label()' if ok else 'an absent child is no longer labelled TC::empty_label(): %s' % [show(a)[:80] for a in none_alt])
     units_directory(ctx, 'C01')
 
 
